@@ -80,6 +80,11 @@ def _plan(draw):
         kw["parse_int_float"] = True
     if fmt == "npz" and draw(st.booleans()):
         kw["allow_pickle"] = draw(st.booleans())
+    if fmt == "parquet" and draw(st.integers(0, 3)) == 0:
+        # a file produced by another tool: float NaN stored as a *value*, not as a null; a dtype map onto a type that
+        # can hold missing values must still report those cells missing
+        kw["raw_nan"] = draw(st.sampled_from(["str", "object"]))
+        kw.pop("dtypes", None)
     if fmt == "lod_json" and draw(st.integers(0, 2)) == 0:
         kw["nested"] = True
         kw.get("dtypes", {}).pop(names[-1], None)
@@ -95,7 +100,7 @@ def nontrivial(plan):
     names = [c["name"] for c in plan["frame"]["cols"]]
     if "columns" in kw and kw["columns"] != [x for x in names if x in kw["columns"]]:
         return True
-    return bool(set(kw) - {"columns", "nested"}) or ("nested" in kw and "columns" in kw)
+    return bool(set(kw) - {"columns", "nested"}) or ("nested" in kw and "columns" in kw)     # raw_nan counts as an option
 
 
 _DT = {"float": float, "str": str, "object": object}
@@ -198,6 +203,8 @@ def check(plan, ctx):
             raise RuntimeError(f"alias {name} has keywords {sorted(have)}; the plan covers {sorted(kws)}: extend the check")
     fmt, kw = plan["fmt"], plan["kw"]
     ctx.cls("fmt_" + fmt, *("kw_" + k for k in kw))
+    if kw.get("raw_nan"):
+        return _check_raw_nan(plan, ctx)
     path = _write(plan, ctx)
     alias, method = _targets(fmt)
     kwargs = _kwargs(plan)
@@ -261,6 +268,30 @@ def check(plan, ctx):
         if build.dtype_tag(got[cn]) != build.dtype_tag(ref):
             raise Violation("dtype differs from read-everything-then-cast", column=cn, got=build.dtype_tag(got[cn]),
                             want=build.dtype_tag(ref))
+
+
+def _check_raw_nan(plan, ctx):
+    import pyarrow as pa
+    import pyarrow.parquet as pq
+    n = plan["frame"]["n"]
+    x = np.array([float("nan") if i % 2 == 0 else 1.5 + i for i in range(n)], dtype=np.float64)
+    y = np.arange(n, dtype=np.int64)
+    path = ctx.path("raw.parquet")
+    pq.write_table(pa.table({"x": pa.array(x, from_pandas=False), "y": pa.array(y)}), path)
+    target = {"str": str, "object": object}[plan["kw"]["raw_nan"]]
+    cols = plan["kw"].get("columns")
+    sel = {"columns": ["x"] if cols and len(cols) % 2 else ["y", "x"]} if cols else {}
+    for label, reader in (("DataFrame.read_parquet", di.DataFrame.read_parquet), ("di.read_parquet", di.read_parquet)):
+        plain = ctx.call(label, reader, path, **sel)
+        typed = ctx.call(label + "(dtypes)", reader, path, dtypes={"x": target}, **sel)
+        a = [bool(b) for b in np.asarray(plain["x"].is_na())]
+        b = [bool(v) for v in np.asarray(typed["x"].is_na())]
+        if a != [i % 2 == 0 for i in range(n)]:
+            raise Violation(f"{label}: NaN cells of a float column are not reported missing", got=a)
+        if b != a:
+            raise Violation(f"{label}: with a dtype map the missing cells of the column differ from those of the plain read",
+                            dtype=plan["kw"]["raw_nan"], plain=a, typed=b, cells=build.cells(typed["x"]))
+    ctx.cls("raw_nan_checked")
 
 
 KNOWN = {}
